@@ -82,12 +82,67 @@ def _norm_label(node, fn_node):
     return src(t)
 
 
-def _implied(test, fs):
-    """every atomic conjunct of the asserted test is a dominating fact"""
+def _implied(test, fs, fn_node=None):
+    """every atomic conjunct of the asserted test is a dominating fact, or follows from one by a trivial step: ``x != 0`` / ``len(x) > 0``
+    under a truthiness test of x, ``len(x) >= k`` from the length facts that dominate it, ``isinstance(x, C)`` for x = C(...)"""
     from engine.astutil import atomise
     have = {(f.text, f.pol) for f in fs}
     atoms = atomise(test, True)
-    return bool(atoms) and all((a.text, a.pol) in have for a in atoms)
+    if not atoms:
+        return False
+
+    def one(a):
+        if (a.text, a.pol) in have:
+            return True
+        t = a.text.replace(' ', '')
+        import re as _re
+        m_ = _re.fullmatch(r'(\w+)!=0', t) or _re.fullmatch(r'len\((\w+)\)>0', t) or _re.fullmatch(r'len\((\w+)\)>=1', t) or _re.fullmatch(r'len\((\w+)\)!=0', t)
+        if a.pol and m_ and ((m_.group(1), True) in have or ('not ' + m_.group(1), False) in have):
+            return True
+        m_ = _re.fullmatch(r'len\((\w+)\)(>=|>)(\d+)', t)
+        if a.pol and m_ and fn_node is not None:
+            seq, need = m_.group(1), int(m_.group(3)) + (1 if m_.group(2) == '>' else 0)
+            defs = {}
+            for s_ in ast.walk(fn_node):
+                if isinstance(s_, ast.Assign) and len(s_.targets) == 1 and isinstance(s_.targets[0], ast.Name):
+                    defs.setdefault(s_.targets[0].id, []).append(s_.value)
+            ok_, _ = _nonempty(seq, defs, fs, need - 1)
+            return ok_
+        m_ = _re.fullmatch(r'isinstance\((\w+),(\w+)\)', t)
+        if a.pol and m_ and fn_node is not None:
+            ds = [s_.value for s_ in ast.walk(fn_node) if isinstance(s_, ast.Assign) and len(s_.targets) == 1
+                  and isinstance(s_.targets[0], ast.Name) and s_.targets[0].id == m_.group(1)]
+            return bool(ds) and all(isinstance(d, ast.Call) and call_name(d) == m_.group(2) for d in ds)
+        return False
+    return all(one(a) for a in atoms)
+
+
+def _unreachable(stmt, fn_node):
+    """the statement follows, in its own block, a statement that never completes normally (return / raise / continue / break on every
+    path, also through if / try ladders)"""
+    def never_completes(st):
+        if isinstance(st, (ast.Return, ast.Raise, ast.Continue, ast.Break)):
+            return True
+        if isinstance(st, ast.If):
+            return bool(st.orelse) and never_completes_block(st.body) and never_completes_block(st.orelse)
+        if isinstance(st, ast.Try):
+            if st.finalbody and never_completes_block(st.finalbody):
+                return True
+            normal = never_completes_block(st.orelse) if st.orelse else never_completes_block(st.body)
+            return normal and all(never_completes_block(h.body) for h in st.handlers)
+        if isinstance(st, ast.With):
+            return never_completes_block(st.body)
+        return False
+
+    def never_completes_block(block):
+        return any(never_completes(x) for x in block)
+    for parent in ast.walk(fn_node):
+        for field in ('body', 'orelse', 'finalbody'):
+            block = getattr(parent, field, None)
+            if isinstance(block, list) and any(x is stmt for x in block):
+                i = [j for j, y in enumerate(block) if y is stmt][0]
+                return any(never_completes(x) for x in block[:i])
+    return False
 
 
 def _value_aliases(fn, value):
@@ -375,6 +430,10 @@ def run(repo, rep):
                 name = dotted(e) or src(e)
                 if _is_caught_variable(s, e, par):
                     continue        # ``raise e`` of the exception just caught: no new failure
+                if _unreachable(s, f.node):
+                    n += 1
+                    rep.ok('C07.e', '%s:raise-unreachable' % f.qualname, '%s:%d' % (f.module.relpath, s.lineno), 'every path before this statement returns or raises')
+                    continue
                 builtin_exc = isinstance(getattr(__import__('builtins'), name, None), type)
                 if not builtin_exc and isinstance(s.exc, ast.Call) and isinstance(e, ast.Name):
                     # ``raise helper(...)``: the class is the one every return of the helper constructs
@@ -391,7 +450,7 @@ def run(repo, rep):
                 if name == 'StopIteration':
                     continue
             elif isinstance(s, ast.Assert):
-                if _implied(s.test, g.of(s)):
+                if _implied(s.test, g.of(s), f.node) or _unreachable(s, f.node):
                     n += 1
                     rep.ok('C07.e', '%s:assert-implied' % f.qualname, '%s:%d' % (f.module.relpath, s.lineno), 'asserted test is implied by the dominating tests')
                     continue
@@ -404,6 +463,13 @@ def run(repo, rep):
         found = sites.get(key, [])
         n += 1
         where = '%s:%d' % (found[-1][0].module.relpath, found[-1][1].lineno) if found else key[0]
+        if key[1] == 'assert' and len(found) > budget:
+            # more assertions than are accounted for, none of them implied by the tests that dominate it: whether an added assertion
+            # can fail on a valid value is not something this rule can establish - undecided, not a violation
+            rep.undecided('C07.e', 'may-raise:%s:%s' % key, where,
+                          '%d assert statements in %s.py (%s) where %d are accounted for (%s): cannot establish that the additional ones always hold'
+                          % (len(found), key[0], ', '.join('%s:%d' % (f_.qualname, s_.lineno) for f_, s_ in found), budget, why or 'none reasoned'))
+            continue
         rep.check(len(found) <= budget, 'C07.e', 'may-raise:%s:%s' % key, where,
                   '%d of at most %d sites: %s' % (len(found), budget, why),
                   'the printing pipeline contains %d "%s" sites in %s.py (%s) where %d are accounted for (%s): a bundled printer can fail on an '
